@@ -464,8 +464,12 @@ def e_version(variant):
     def fn(msg, _):
         line = msg.orig[:msg.orig.index(b'\r\n')]
         tail = msg.orig[len(line) + 2:]
-        v = variant % 6
-        if v == 0:
+        v = variant % 8
+        if v == 6:
+            line = line[:8] + line[8:].swapcase()
+        elif v == 7:
+            line = line[:8] + line[8:].upper()
+        elif v == 0:
             line = line + b'x'
         elif v == 1:
             line = line[:-1] + bytes([line[-1] ^ 1])
@@ -483,9 +487,11 @@ def e_version(variant):
 
 def e_version_bad(variant):
     def fn(msg, _):
-        v = variant % 2
+        v = variant % 3
         if v == 0:
             return b'SSH-1.5-' + msg.orig[8:]
+        if v == 1:
+            return b'ssh-2.0-' + msg.orig[8:]      # prefix is case sensitive
         return b'SSX' + msg.orig[3:]
     return fn
 
@@ -494,8 +500,34 @@ def e_eol(msg, _):
     return msg.orig.replace(b'\r\n', b'\n', 1)
 
 
-def e_banner(msg, _):
-    return b'Welcome to this host\r\nmaintenance at noon\r\n' + msg.orig
+def e_banner(variant):
+    """Whole lines inserted before the identification string."""
+    lines = [b'Welcome to this host\r\nmaintenance at noon\r\n',
+             b'hello\n', b'\r\n', b'x' * 200 + b'\r\n',
+             b'ssh-2.0-lowercase is not an identification\r\n',
+             b'one\ntwo\nthree\nfour\n'][variant % 6]
+
+    def fn(msg, _):
+        return lines + msg.orig
+    return fn
+
+
+def e_tail(variant):
+    """Bytes inserted behind the identification line, where the first
+    binary packet has to start."""
+    extra = [b'\n', b'extra\r\n', b'\0', b'SSH-2.0-again\r\n'][variant % 4]
+
+    def fn(msg, _):
+        return msg.orig + extra
+    return fn
+
+
+def e_split(variant):
+    """The identification line delivered in pieces (content unchanged)."""
+    def fn(msg, _):
+        cut = [1, 4, 8, len(msg.orig) - 1, len(msg.orig) - 2][variant % 5]
+        return [msg.orig[:cut], msg.orig[cut:]]
+    return fn
 
 
 def e_pad(msg, _):
@@ -911,7 +943,11 @@ def concretise(ed, names, variant=0, fam=None):
     elif f == 'eol':
         fn = e_eol
     elif f == 'banner':
-        fn = e_banner
+        fn = e_banner(variant)
+    elif f == 'tail':
+        fn = e_tail(variant)
+    elif f == 'split':
+        fn = e_split(variant)
     elif f == 'pad':
         fn = e_pad
     elif f == 'cookie':
